@@ -3,6 +3,7 @@ from hypothesis import strategies as st
 
 from .. import drawer as D
 from ..core import Property, Violation
+from ..run import guard
 from ..util import parse_default_dump
 
 PROP = Property(
@@ -85,11 +86,11 @@ def synthetic(case, note):
         if case['with_pte'] else None
     text = D.render_header_file(pte, fields, case['style'])
     with D.TempFile(text, '.h') as path:
-        got_fields = hlog().get_hlog_fields(path)
+        got_fields = guard('C16.table', hlog().get_hlog_fields, path)
         if [(f.size, f.name) for f in got_fields] != fields:
             raise Violation('C16.grammar', 'field table read as %r, file declares %r'
                             % ([(f.size, f.name) for f in got_fields][:6], fields[:6]), sig='C16.grammar')
-        lines = hlog().parse_hlog_data(memoryview(case['data']), path)
+        lines = guard('C16.decode', hlog().parse_hlog_data, memoryview(case['data']), path)
     check_output(lines, fields, case['data'])
     classify(fields, case['data'], note)
 
@@ -118,10 +119,10 @@ def shipped_case(draw):
 def shipped(case, note):
     fields = shipped_fields(case['file'])
     path = D.shipped(case['file'])
-    got_fields = hlog().get_hlog_fields(path)
+    got_fields = guard('C16.table', hlog().get_hlog_fields, path)
     if [(f.size, f.name) for f in got_fields] != fields:
         raise Violation('C16.grammar', 'shipped table %s read as %d fields, an independent tokenizer finds %d'
                         % (case['file'], len(got_fields), len(fields)), sig='C16.grammar.shipped')
-    lines = hlog().parse_hlog_data(memoryview(case['data']), path)
+    lines = guard('C16.decode', hlog().parse_hlog_data, memoryview(case['data']), path)
     check_output(lines, fields, case['data'])
     classify(fields, case['data'], note)
